@@ -173,6 +173,8 @@ func c19(c *Ctx) {
 
 func c19Sequences(c *Ctx, r *Rng) {
 	n := c.N(60, 1200)
+	var mu sync.Mutex
+	var ml, mi, mc []string
 	var wg sync.WaitGroup
 	sem := make(chan struct{}, 10)
 	for i := 0; i < n; i++ {
@@ -182,10 +184,24 @@ func c19Sequences(c *Ctx, r *Rng) {
 		go func(i int, rs *Rng) {
 			defer wg.Done()
 			defer func() { <-sem }()
-			c19Sequence(c, i, rs)
+			c19Sequence(c, i, rs, func(line, impl, cas string) {
+				mu.Lock()
+				ml, mi, mc = append(ml, line), append(mi, impl), append(mc, cas)
+				mu.Unlock()
+			})
 		}(i, rs)
 	}
 	wg.Wait()
+	ans, err := c.Or.Ask(ml)
+	if err != nil {
+		c.R.Add(Finding{Kind: "diff", What: "oracle process failed: " + err.Error(), Broken: "corr.C19.seq"})
+		return
+	}
+	for k := range ml {
+		if ans[k] != mi[k] {
+			c.R.Add(Finding{Kind: "diff", What: "the lines of .gitattributes after a track/untrack sequence: model and implementation disagree", Case: clip(mc[k], 1500), Impl: mi[k], Model: ans[k] + " <= " + clip(ml[k], 400), Broken: "corr.C19.seq"})
+		}
+	}
 }
 
 func c19Matcher(c *Ctx, r *Rng) {
@@ -518,7 +534,7 @@ func c19Scenario(c *Ctx, i int, r *Rng) {
 // unrooted spellings of one name, an extension glob, a directory-qualified name).  After every step
 // Git's attribute lookup must equal the lookup in a scratch repository whose .gitattributes holds
 // the same patterns written by hand in Git's quoted-pattern syntax.
-func c19Sequence(c *Ctx, i int, r *Rng) {
+func c19Sequence(c *Ctx, i int, r *Rng, add func(line, impl, cas string)) {
 	dir := filepath.Join(c.Work, fmt.Sprintf("c19s-%d", i))
 	spec := filepath.Join(c.Work, fmt.Sprintf("c19s-%d-spec", i))
 	defer os.RemoveAll(dir)
@@ -540,6 +556,7 @@ func c19Sequence(c *Ctx, i int, r *Rng) {
 	active := map[string]*st{}
 	var order []string
 	var steps []string
+	var mops []string
 	n := 2 + r.Intn(4)
 	// directed: a lockable pattern tracked again WITHOUT a lock flag keeps its lockable attribute
 	// ("leave lockable as-is"), whichever spelling the pattern has
@@ -592,8 +609,23 @@ func c19Sequence(c *Ctx, i int, r *Rng) {
 		}
 		out, code := runIn(dir, env, c.Lfs, args...)
 		steps = append(steps, strings.Join(args, " "))
+		switch {
+		case args[0] == "untrack":
+			mops = append(mops, "U:"+hx([]byte(p)))
+		case len(args) == 3 && args[1] == "--lockable":
+			mops = append(mops, "Tl:"+hx([]byte(p)))
+		case len(args) == 3 && args[1] == "--not-lockable":
+			mops = append(mops, "Tu:"+hx([]byte(p)))
+		default:
+			mops = append(mops, "Tn:"+hx([]byte(p)))
+		}
 		enc := fmt.Sprintf("C19 seq pre=%s steps=%s", hx([]byte(pre)), strings.Join(steps, " ; "))
 		c.R.Count("seq.step")
+		if code == 0 {
+			// the lines of the file against the model TrkSeq.run of the same operations
+			written, _ := os.ReadFile(filepath.Join(dir, ".gitattributes"))
+			add(fmt.Sprintf("C19 seq %s %s", c19Lines(pre, true), strings.Join(mops, ",")), c19Lines(string(written), false), enc)
+		}
 		if code != 0 {
 			c.R.Add(Finding{Kind: "oracle", What: "`git lfs " + args[0] + "` failed on a plain pattern", Case: enc, Impl: clip(out, 200)})
 			return
@@ -626,6 +658,42 @@ func c19Sequence(c *Ctx, i int, r *Rng) {
 		}
 		c.R.Eval(enc, true)
 	}
+}
+
+// c19Lines renders .gitattributes text the way the track-sequence model sees it: one entry per line
+// that has a field — first field, assigns `filter`, assigns filter=lfs, sets lockable
+func c19Lines(text string, withFilterFlag bool) string {
+	var out []string
+	for _, l := range strings.Split(text, "\n") {
+		f := strings.Fields(l)
+		if len(f) == 0 {
+			continue
+		}
+		hasF, lfs, lock := false, false, false
+		for _, a := range f[1:] {
+			switch {
+			case a == "filter=lfs":
+				hasF, lfs = true, true
+			case strings.HasPrefix(a, "filter=") || a == "-filter" || a == "!filter" || a == "filter":
+				hasF = true
+			case a == "lockable":
+				lock = true
+			}
+		}
+		b := func(x bool) string {
+			if x {
+				return "1"
+			}
+			return "0"
+		}
+		pat := strings.Trim(f[0], "\"")
+		if withFilterFlag {
+			out = append(out, hx([]byte(pat))+":"+b(hasF)+":"+b(lfs)+":"+b(lock))
+		} else {
+			out = append(out, hx([]byte(pat))+":"+b(lfs)+":"+b(lock))
+		}
+	}
+	return joinOrDash(out)
 }
 
 func sameModuloSpace(a, b string) bool {
